@@ -94,6 +94,18 @@ PROFILES = {
                                "fold::fold_item_trait": "Syn.fold_item_trait (StripInput.fold_trait_item_fn svMsg svNew self)"},
               "extern_call_drops_self": ["fold::fold_item_impl", "fold::fold_item_trait"],
               "extern_calls_res": ["fold::fold_impl_item_fn", "fold::fold_trait_item_fn", "fold::fold_item_impl", "fold::fold_item_trait"]},
+    # the context types handlers receive (C02, C07): six structs, their `From<tuple>` conversions (what `Into::into(ctx)` in a
+    # generated dispatch arm does) and `branch`; cosmwasm_std's Deps / DepsMut / Env / MessageInfo / Event / MsgResponse are opaque
+    "ctx": {"src": ("sylvia", "src", "ctx.rs"), "out": "CtxFns.lean", "ns": "Extracted.CtxFns",
+            "imports": ["Sylvia.Model.RustSem"], "opens": "open RustSem",
+            "vars": "variable {Deps DepsMut Env MessageInfo Event MsgResponse : Type}", "str": "String",
+            "only": ["ExecCtx.branch", "InstantiateCtx.branch", "SudoCtx.branch"], "only_enums": [],
+            "only_structs": ["ReplyCtx", "MigrateCtx", "ExecCtx", "InstantiateCtx", "QueryCtx", "SudoCtx"],
+            "trait_only": ["MigrateCtx.from", "ReplyCtx.from", "ExecCtx.from", "InstantiateCtx.from", "QueryCtx.from", "SudoCtx.from"],
+            "tparams": ["Deps", "DepsMut", "Env", "MessageInfo", "Event", "MsgResponse"],
+            "opaque_generic": ["Deps", "DepsMut"],
+            "leading_binders": "(branchDeps : DepsMut → DepsMut)", "leading_args": "branchDeps",
+            "extern_methods": {"branch": "branchDeps"}},
     # the bridge to chain-custom types (C11): `IntoMsg::into_msg` and `IntoResponse::into_response`, trait methods on cosmwasm_std's
     # SubMsg / Response (declared in Sylvia/Model/RustExtern.lean); arms compiled under `#[cfg(feature = "..")]` become
     # `if feat ".." then <arm> else <the wildcard arm>`, so the regenerated function is the code under every feature set at once
@@ -178,7 +190,15 @@ class FnTr:
                 raise Unsupported("generic parameter %s" % g)
             self.declare(g[1], "Nat")
         self.params = []
-        for pat, ty in fn["params"]:
+        self.param_lets = []
+        for n_, (pat, ty) in enumerate(fn["params"]):
+            if pat[0] == "ptuple" and all(x[0] in ("pid", "wild") for x in pat[1]):
+                # `fn f((a, b): (A, B))`: the parameter is named and taken apart first
+                nm = "arg%d" % n_
+                self.declare(nm, self.mod.ty(ty))
+                self.params.append(nm)
+                self.param_lets.append("let (%s) := %s" % (", ".join(lid(x[1]) if x[0] == "pid" else "_" for x in pat[1]), nm))
+                continue
             if pat[0] != "pid":
                 raise Unsupported("parameter pattern %s" % pat)
             self.declare(pat[1], self.mod.ty(ty))
@@ -879,7 +899,7 @@ class FnTr:
     def translate(self):
         body = self.fn["body"]
         lines = self.block(body, None, kval=lambda v: [".ok %s" % v], kend=lambda: [".ok ()"])
-        return lines
+        return self.param_lets + lines
 
 
 class ModTr:
@@ -944,7 +964,8 @@ class ModTr:
             if name not in tonly or name in missing:
                 continue
             params = [[["pid", "self"], tm["self_ty"]] if pp[0] == "self" else [pp, tt] for pp, tt in tm["params"]]
-            self.fns[name] = {"name": name, "generics": tm["generics"], "params": params, "ret": tm["ret"], "body": tm["body"], "owner": tm["owner"]}
+            tret = ["tpath", [tm["owner"]]] if tm["ret"] == ["tpath", ["Self"]] and tm["owner"] in self.structs else tm["ret"]
+            self.fns[name] = {"name": name, "generics": tm["generics"], "params": params, "ret": tret, "body": tm["body"], "owner": tm["owner"]}
             notes = [x for x in tm["attrs"] if x]
             if notes:
                 self.method_notes[name] = notes
@@ -985,6 +1006,8 @@ class ModTr:
                 return "Option %s" % FnTr.paren_ty(self.ty(t[2][0]))
             if name == "Vec" and len(t[2]) == 1:
                 return "List %s" % FnTr.paren_ty(self.ty(t[2][0]))
+            if name in self.profile.get("opaque_generic", []):
+                return name
             if name in getattr(self, "structs", {}):
                 return self.struct_ty(name)
             if name in self.profile.get("extern_generic", {}) and (len(t[2]) == 1 or name == "Punctuated"):
